@@ -282,14 +282,14 @@ theorem TrsoAux.line10_joint_sem {ctx : Ctx} {Mb : Nat} {q : Query} {G : MG Name
   have hQ : ctx.M.Q (regularNodes G) = ctx.M.Q order :=
     ctx.M.Q_congr_set (regularNodes_nodup hq.wfG) hnd (fun x => (hmem x).symm)
   have hvars : ∀ v ∈ [Var.plain node] ++ plainVars l1,
-      (v.ivs = [] ∧ v.star = none) ∧ v.name ∈ regularNodes G := by
+      (v.ivs = [] ∧ v.star = none ∧ v.isIv = false) ∧ v.name ∈ regularNodes G := by
     intro v hv
     rcases List.mem_append.1 hv with hv | hv
     · rw [List.mem_singleton] at hv
       subst hv
-      exact ⟨⟨rfl, rfl⟩, (hordm node).2 (Or.inr (Or.inl rfl))⟩
+      exact ⟨⟨rfl, rfl, rfl⟩, (hordm node).2 (Or.inr (Or.inl rfl))⟩
     · obtain ⟨m, hm, rfl⟩ := (mem_plainVars v l1).1 hv
-      exact ⟨⟨rfl, rfl⟩, (hordm m).2 (Or.inl hm)⟩
+      exact ⟨⟨rfl, rfl, rfl⟩, (hordm m).2 (Or.inl hm)⟩
   have hS1 : ∀ n ∈ vnames ([Var.plain node] ++ plainVars l1), n ∈ regularNodes G ∨ n ∈ ctx.ign := by
     intro n hn
     obtain ⟨v, hv, rfl⟩ := List.mem_map.1 hn
@@ -298,7 +298,7 @@ theorem TrsoAux.line10_joint_sem {ctx : Ctx} {Mb : Nat} {q : Query} {G : MG Name
     Or.inl ((hordm n).2 (Or.inl ((TrsoAux.mem_vnames_plainVars n l1).1 hn)))
   refine ⟨⟨trivial, jc.adm (fun v hv => (hvars v hv).1) (fun v hv => Or.inl (hvars v hv).2)⟩, fun σ => ?_⟩
   rw [ctx.S.leaf_eq (some (popVar q.domain)) [] [Var.plain node] (plainVars l1) jc.okW
-    (fun v hv => ⟨(hvars v hv).1.1, (hvars v hv).1.2, jc.okN v.name (Or.inl (hvars v hv).2)⟩) σ,
+    (fun v hv => ⟨(hvars v hv).1.1, (hvars v hv).1.2.1, (hvars v hv).1.2.2, jc.okN v.name (Or.inl (hvars v hv).2)⟩) σ,
     jc.marg _ hS1 σ, jc.marg _ hS2 σ, hQ]
   congr 1
   · refine congrFun (sumVars_congr_set ctx.M.card ((regularNodes_nodup hq.wfG).filter _) hl2nd (fun x => ?_) _) σ
